@@ -118,7 +118,7 @@ for i in range(400 if TIER == "quick" else 5000):
     c_meta.case((u, c, p), ok, witness={"user": u, "computer": c, "process": p, **got})
 
 # ---------------------------------------------------------------- exactly-once dispatch
-c_disp = Component("exactly-once-dispatch", "random registrations (0-3 decorator handlers per command incl. None and catch-all -1, optional "
+c_disp = Component("exactly-once-dispatch", "random registrations (0-3 decorator handlers per command incl. None and catch-all -1 - plain functions and callable objects, a quarter of them falsy -, optional "
                    "on_<command> / on_empty_task / on_catch_all methods) followed by 1-25 tasks driven through the real _beacon_loop body "
                    "(get_task / time.sleep / send_callback stubbed): every task invokes exactly the handlers of its command once each, "
                    "the catch-all handlers only when there is none; get_handlers is stable under repetition and leaves task_map "
@@ -128,6 +128,17 @@ CMDS = [BeaconCommand.COMMAND_SLEEP, BeaconCommand.COMMAND_PWD, BeaconCommand.CO
 
 class StopLoop(BaseException):
     pass
+
+
+class CallableLog(list):
+    """a handler that is a callable OBJECT (here: a list subclass that is empty, hence falsy) - registered handlers are called
+    whatever their truth value"""
+    def __init__(self, tag, sink):
+        super().__init__()
+        self.tag, self.sink = tag, sink
+
+    def __call__(self, task):
+        self.sink.append(self.tag)
 
 
 def mk_task(cmd):
@@ -145,7 +156,8 @@ for h in range(1000 if TIER == "quick" else 5000):
         for k in range(rng.choice([0, 0, 1, 2, 3])):
             tag = ("dec", None if cmd is None else cmd.name, k)
             use_enum = rng.random() < 0.5 and cmd is not None
-            cl.handle(cmd if use_enum else (None if cmd is None else cmd.value))(lambda task, tag=tag: calls.append(tag))
+            fn = (lambda task, tag=tag: calls.append(tag)) if rng.random() < 0.75 else CallableLog(tag, calls)
+            cl.handle(cmd if use_enum else (None if cmd is None else cmd.value))(fn)
             regs.append(tag)
         if rng.random() < 0.4:
             nm = "empty_task" if cmd is None else cmd.name.replace("COMMAND_", "").lower()
@@ -156,7 +168,7 @@ for h in range(1000 if TIER == "quick" else 5000):
     catch = []
     for k in range(rng.choice([0, 1, 2])):
         tag = ("catch", k)
-        cl.catch_all()(lambda task, tag=tag: calls.append(tag))
+        cl.catch_all()((lambda task, tag=tag: calls.append(tag)) if rng.random() < 0.75 else CallableLog(tag, calls))
         catch.append(tag)
     if rng.random() < 0.3:
         tag = ("method", "catch_all")
